@@ -105,6 +105,9 @@ def shared_contracts(sess: Session):
     if prop in ILI_IDENTITY_PROPS:
         from contracts import C10
         check_all([ob for ob in C10.identity_obligations() if '.ILI.' in ob.name])
+    if prop in ILI_IDENTITY_PROPS | {'C10'}:
+        from contracts import coreflows
+        coreflows.run_flows(sess, prop, {'ILI_metadata'})       # which table an ILI's metadata is read from
 
 
 def infrastructure(sess: Session):
@@ -133,6 +136,10 @@ def finding_probes(sess: Session):
     for fid, f in sess.findings.items():
         if f.get('status') != 'open' or not f.get('probe') or sess.prop not in f.get('property_ids', []):
             continue
+        probe = f['probe'].get(sess.prop) if isinstance(f['probe'], dict) else f['probe']    # one demo per property
+        if not probe:
+            continue
+        f = dict(f, probe=probe)
         env = dict(os.environ, PYTHONPATH=str(REPO))
         p = subprocess.run([sys.executable, str(ROOT / 'known_findings' / f['probe'])], env=env, capture_output=True,
                            text=True, timeout=600, cwd=str(ROOT / 'known_findings'))
